@@ -183,6 +183,7 @@ def jobs(tier):
     if tier == 'quick':
         out.append(('roundtrip', (3, 3, 'greatest-is-short', 'none', 0)))
         out.append(('roundtrip', (2, 3, 'ascii', 'taxonomy', 0)))
+        out.append(('roundtrip', (2, 2, 'nonascii', 'taxonomy', 0)))     # hierarchical lists whose longest entry is non-ASCII
     return out
 
 
